@@ -52,8 +52,15 @@ ProdSet(k) ==
 
 (* families: each family is a set of mutually composable elements *)
 Thorough == Tier = "thorough"
+(* Euler B321 elements 2e-3 .. 3.3e-3 rad from a gimbal pole, with yaw and roll: OUTSIDE the documented
+   1e-3 band, so product / inverse / identity laws hold exactly there (unary vectors only: the
+   integers of a product of two such elements do not fit 32 bits) *)
+EulerNearPole == { QMul(QMul(z, y), x) : z \in {<<2,0,0,1>>, <<1,0,0,-1>>},
+                                          y \in {<<501,0,500,0>>, <<401,0,-400,0>>, <<301,0,300,0>>},
+                                          x \in {<<3,1,0,0>>, <<1,-1,0,0>>} }
+NFam == 17
 Families ==
-  [ k \in 1..16 |->
+  [ k \in 1..17 |->
     CASE k = 1  -> SO3Set("quat",  IF Thorough THEN QL2 ELSE QL1)
       [] k = 2  -> SO3Set("mrp",   IF Thorough THEN QL2 ELSE QL1)
       [] k = 3  -> SO3Set("dcm",   IF Thorough THEN QL2 ELSE QL1)
@@ -69,10 +76,11 @@ Families ==
       [] k = 13 -> ProdSet(1)
       [] k = 14 -> ProdSet(2)
       [] k = 15 -> ProdSet(3)
-      [] k = 16 -> ProdSet(4) ]
+      [] k = 16 -> ProdSet(4)
+      [] k = 17 -> SO3Set("euler", EulerNearPole) ]
 (* small sub-family used for associativity triples *)
 TriFamilies ==
-  [ k \in 1..16 |->
+  [ k \in 1..17 |->
     CASE k \in 1..4 -> { X \in Families[k] : X.q \in QTri \cup {<<0,1,0,0>>, <<-1,1,0,1>>} }
       [] k \in 5..6 -> { X \in Families[k] : X.q \in QTri /\ X.p \in TTri /\ X.pd = 2 }
       [] k \in 7..8 -> { X \in Families[k] : X.q \in {<<1,1,0,0>>, <<-1,0,1,1>>, <<2,1,0,-1>>} /\ X.p \in TTri /\ X.v \in {<<1,-2,0>>} }
@@ -105,7 +113,7 @@ V1(op, X, e)       == [op |-> op, a |-> <<X>>, exp |-> e]
 V2(op, X, Y, e)    == [op |-> op, a |-> <<X, Y>>, exp |-> e]
 V3(op, X, Y, Z, e) == [op |-> op, a |-> <<X, Y, Z>>, exp |-> e]
 
-Init == \E k \in 1..16 : \E X \in Families[k] : Valid(X) /\ tv = [op |-> "seed", a |-> <<X>>, fam |-> k]
+Init == \E k \in 1..17 : \E X \in Families[k] : Valid(X) /\ tv = [op |-> "seed", a |-> <<X>>, fam |-> k]
 
 Unary(X) ==
    \/ tv' = V1("mat", X, Mat(X))
@@ -116,7 +124,7 @@ Unary(X) ==
    as the left operand of further `*` keeps its own factors, dimensions and matrix semantics
    (history quantifier: G = A*B;  G*R2;  G*SO3Quat;  G must still be A*B)                       *)
 ProdHist(X, k) == k \in 13..16 /\ tv' = [op |-> "prodhist", a |-> <<X>>, exp |-> Mat(X), ident |-> Mat(IdOf(X))]
-Binary(X, k) == \E Y \in Families[k] :
+Binary(X, k) == k <= 16 /\ \E Y \in Families[k] :
    /\ Valid(Y) /\ Valid(Prod(X, Y))
    /\ tv' = V2("mul", X, Y, RMMul(Mat(X), Mat(Y)))
 Ternary(X, k) == k <= 14 /\ X \in TriFamilies[k] /\ \E Y \in TriFamilies[k], Z \in TriFamilies[k] :
@@ -128,7 +136,8 @@ Spec == Init /\ [][Next]_tv
 
 (* ------------------------------ what TLC proves ------------------------------------- *)
 Hom   == tv.op = "mul" => RMEq(Mat(Prod(tv.a[1], tv.a[2])), tv.exp)
-InvOK == tv.op = "inv" => LET X == tv.a[1] IN
+Fits32(X) == X.g # "SO3" \/ QNorm(X.q) < 1000        \* (32-bit: the matrix products below must fit)
+InvOK == tv.op = "inv" /\ Fits32(tv.a[1]) => LET X == tv.a[1] IN
             /\ RMIsIdent(RMMul(tv.exp, Mat(X))) /\ RMIsIdent(RMMul(Mat(X), tv.exp))
 IdOK  == tv.op = "ident" => LET X == tv.a[1] E == IdOf(X) IN
             /\ RMIsIdent(tv.exp)
@@ -136,5 +145,5 @@ IdOK  == tv.op = "ident" => LET X == tv.a[1] E == IdOf(X) IN
 Assoc == tv.op = "assoc" => LET X == tv.a[1] Y == tv.a[2] Z == tv.a[3] IN
             /\ Norm(Prod(Norm(Prod(X, Y)), Z)) = Norm(Prod(X, Norm(Prod(Y, Z))))
             /\ RMEq(Mat(Norm(Prod(X, Norm(Prod(Y, Z))))), tv.exp)
-RotProper == tv.op = "mat" /\ tv.a[1].g \in {"SO3", "SE3", "SE23"} => Proper(tv.a[1].q)
+RotProper == tv.op = "mat" /\ tv.a[1].g \in {"SO3", "SE3", "SE23"} /\ QNorm(tv.a[1].q) < 1000 => Proper(tv.a[1].q)   \* (32-bit: N^3 must fit)
 =============================================================================
